@@ -251,11 +251,17 @@ type NXActionConnTrack struct {
 }
 
 func (a *NXActionConnTrack) Len() (n uint16) {
-	return a.Length
+	// the nested actions may have grown since they were added
+	n = a.NXActionHeader.Len() + 14
+	for _, act := range a.actions {
+		n += act.Len()
+	}
+	a.Length = n
+	return n
 }
 
 func (a *NXActionConnTrack) MarshalBinary() (data []byte, err error) {
-	data = make([]byte, int(a.Length))
+	data = make([]byte, int(a.Len()))
 	var b []byte
 	n := 0
 
@@ -291,7 +297,7 @@ func (a *NXActionConnTrack) UnmarshalBinary(data []byte) error {
 	a.NXActionHeader = new(NXActionHeader)
 	err := a.NXActionHeader.UnmarshalBinary(data[n:])
 	n += int(a.NXActionHeader.Len())
-	if len(data) < int(a.Len()) {
+	if len(data) < int(a.Length) {
 		return errors.New("the []byte is too short to unmarshal a full NXActionConnTrack message")
 	}
 	a.Flags = binary.BigEndian.Uint16(data[n:])
@@ -307,7 +313,7 @@ func (a *NXActionConnTrack) UnmarshalBinary(data []byte) error {
 	a.Alg = binary.BigEndian.Uint16(data[n:])
 	n += 2
 
-	for n < int(a.Len()) {
+	for n < int(a.Length) {
 		act, err := DecodeAction(data[n:])
 		if err != nil {
 			return errors.New("failed to decode actions")
